@@ -48,9 +48,15 @@ pub(super) const MAX_LEN: usize = 12;
 /// Every ASCII string of length 0..=12 (the longest engine-owned name has 10
 /// bytes, so prefixes, extensions by up to two bytes, case variants, one-byte
 /// flips and every other spelling up to that length are all in the domain).
-#[kani::proof_for_contract(is_protected_field)]
+///
+/// Harness form (assert after the call), not `proof_for_contract`: measured in this
+/// sandbox, the attribute form (`kani::ensures` + `proof_for_contract`) of the same
+/// obligation took 247 s for 10 bytes over [a-z_G] (88 s with a loop-free harness
+/// and a `==`-based spec) and timed out at 300 s on this domain, against 2.6 s for
+/// the harness form — the cost is Kani's contract instrumentation, not the function.
+#[kani::proof]
 #[kani::unwind(14)]
-fn c16_prot_contract() {
+fn c16_prot_iff() {
     let buf: [u8; MAX_LEN] = kani::any();
     let len: usize = kani::any();
     kani::assume(len <= MAX_LEN);
@@ -62,7 +68,6 @@ fn c16_prot_contract() {
     // ASCII bytes only, so the slice is valid UTF-8.
     let name: &str = unsafe { core::str::from_utf8_unchecked(&buf[..len]) };
     let r = is_protected_field(name);
-    // Explicit restatement: decisive under native playback, redundant under CBMC.
     assert!(post_iff(name, &r), "OBL:C16.prot.iff");
     kani::cover!(r, "COVER:protected");
     kani::cover!(!r && len == 10, "COVER:ordinary");
@@ -85,26 +90,4 @@ fn c16_prot_names() {
     assert!(is_protected_field("space_seq"), "OBL:C16.prot.engine_names_protected");
     kani::cover!(!is_protected_field("name"), "COVER:ordinary");
     kani::cover!(true, "COVER:reach");
-}
-
-// ---- EXPERIMENTS (to be removed) ----
-pub(super) fn post_iff2(name: &str, r: &bool) -> bool {
-    *r == (name == "_system" || name == "governance" || name == "space_id" || name == "space_seq")
-}
-fn alpha(b: u8) -> bool { (b >= b'a' && b <= b'z') || b == b'_' || b == b'G' }
-
-#[kani::proof_for_contract(is_protected_field)]
-#[kani::unwind(12)]
-fn x_prot_v4() {
-    let buf: [u8; 10] = [
-        kani::any_where(|b| alpha(*b)), kani::any_where(|b| alpha(*b)), kani::any_where(|b| alpha(*b)),
-        kani::any_where(|b| alpha(*b)), kani::any_where(|b| alpha(*b)), kani::any_where(|b| alpha(*b)),
-        kani::any_where(|b| alpha(*b)), kani::any_where(|b| alpha(*b)), kani::any_where(|b| alpha(*b)),
-        kani::any_where(|b| alpha(*b)),
-    ];
-    let len: usize = kani::any();
-    kani::assume(len <= 10);
-    let name: &str = unsafe { core::str::from_utf8_unchecked(&buf[..len]) };
-    let r = is_protected_field(name);
-    kani::cover!(r, "COVER:protected");
 }
